@@ -107,6 +107,9 @@ func (o bop) setter() (s stun.Setter, addType uint16, addLen int, adds bool) {
 		ipLen = 20
 	}
 	val := unHex(o.Val)
+	if trackSetterBufs {
+		setterBufs = append(setterBufs, ip, val)
+	}
 	switch o.Kind {
 	case "raw":
 		return stun.RawAttribute{Type: stun.AttrType(o.Type), Length: uint16(o.Port), Value: val}, o.Type, len(val), true
@@ -171,6 +174,13 @@ func (o bop) setter() (s stun.Setter, addType uint16, addLen int, adds bool) {
 
 	return nil, 0, 0, false
 }
+
+// setterBufs collects the caller-side byte slices handed to setters so that
+// C08 can overwrite them after the call (copy semantics).
+var (
+	trackSetterBufs bool
+	setterBufs      [][]byte
+)
 
 type xorAs struct {
 	a stun.XORMappedAddress
